@@ -58,7 +58,7 @@ theorem ops_as_modelled_lemma :
     ∧ invalidChecksUuidFirst = true ∧ refreshChecksUuidFirst = true
     ∧ replFailClasses = [.recycled, .conflict] ∧ replFailAttr = .sourceUuid
     ∧ sealAttrs = [.lastModifiedCid, .createdAtCid]
-    ∧ validateReturns = [.noClassFound, .okConflict, .noClassFound, .invalidClass,
+    ∧ validateReturns = [.noClassFound, .okConflict, .noClassFound, .noClassFound, .invalidClass,
         .supplementsNotSatisfied, .excludesNotSatisfied, .corrupted, .missingMustAttribute,
         .phantomAttribute, .avaCheck, .invalidAttribute, .corrupted, .avaCheck,
         .attributeNotValidForClass, .okEnd] := by
